@@ -2,7 +2,8 @@
 #
 # Helpers kept here (nothing was added to lib/vf.py):
 #   all_programs(edges)   every maximal path of TLC's (acyclic) transition graph = every client token program
-#   explain(...)          which single deviation of the spec reproduces an observed real transition
+#   attack_paths(rel)     the scenarios of the relation with all deviations enabled that rely on a deviation
+#   explain(rel, ...)     which deviation of the spec reproduces an observed real run
 import json, os
 import vf
 
@@ -160,6 +161,19 @@ def is_init(s, cfgrec=None):
         and not s["sentValid"] and (cfgrec is None or s["cfg"] == cfgrec)
 
 
+def edges_covered(paths, edges):
+    """Does the set of replayed paths take every transition of the bounded model at least once?"""
+    _, _, _, nedges = graph(edges)
+    seen = set()
+    for p in paths:
+        k = vf.canon(p["init"])
+        for st in p["steps"]:
+            kt = vf.canon(st["t"])
+            seen.add((k, vf.canon(st["a"]), kt))
+            k = kt
+    return len(seen) == nedges
+
+
 def hs_programs(paths, attacks=()):
     """Programs for the handshake harness: token + predicted replies / executed command / phase per step.
     attacks: [(deviation, path)] scenarios from the deviation relation (judged by the property oracle only)."""
@@ -169,14 +183,6 @@ def hs_programs(paths, attacks=()):
                     "steps": [{"tok": s["a"]["tok"], "rep": s["a"]["rep"], "ex": s["a"]["ex"], "phase": s["t"]["phase"]}
                               for s in p["steps"]]})
     return out
-
-
-def matches(cfgrec, tok):
-    """Ground truth of C21 on the abstract token (mirrors the harness' byte-level ground truth)."""
-    usable = cfgrec["users"] in ("plain", "hashed", "mixed", "both")
-    if tok.get("t") in ("A", "WS") and tok.get("k") == "valid" and usable:
-        return True
-    return tok.get("t") == "A" and tok.get("k") == "shadowed" and cfgrec["users"] == "both"
 
 
 def hs_replay(ctx, variant, programs, name):
